@@ -219,7 +219,8 @@ def graph_paths(graphs):
     return out
 
 
-SPELL = ["a", "b1", "items_", "itemsize", "_", "name", "c"]
+SPELL = ["a", "b1", "items_", "itemsize", "_", "name", "c", "caf\u00e9", "gr\u00f6\u00dfe2"]      # the documented NAME rule is \\w-based: not ASCII only
+WHITESPACE = [" ", "  ", "\t", "\n", "\r\n", "\x0c", " \r"]                                        # every character the grammar ignores
 TEXT = {"ITEMS": "items", "PLUS": "+", "STAR": "*", "DOT": ".", "COLON": ":", "COMMA": ",", "LSQB": "[", "RSQB": "]"}
 
 
@@ -241,10 +242,10 @@ def render(kinds, rng, ws=True, brackets=False, same=False):
         if i and (kinds[i - 1] in ("NAME", "ITEMS") and kinds[i] in ("NAME", "ITEMS")):
             out += " "
         elif ws and rng.random() < 0.3:
-            out += " " * rng.randrange(1, 3)
+            out += WHITESPACE[rng.randrange(len(WHITESPACE))]
         out += p
     if ws and rng.random() < 0.3:
-        out = " " + out + "  "
+        out = WHITESPACE[rng.randrange(len(WHITESPACE))] + out + WHITESPACE[rng.randrange(len(WHITESPACE))]
     return out, names
 
 
@@ -335,6 +336,8 @@ def api_checks(ex, kinds, text, names, real_ok):
             metadata_semantics(ex, n_)
     if "STAR" in kinds:
         star_semantics(ex)
+    if "ITEMS" in kinds:
+        items_semantics(ex)
     _compile_expression([text, "zz9"])
     _compile_expression([text, text])
     again = list(parsing.compile_str(text))
@@ -417,6 +420,36 @@ def metadata_semantics(ex, n):
         ex.check(len(nested) == 2 and nested[0][0] is old and nested[0][2] == 3 and nested[1][0] is new and nested[1][2] == 4,
                  "'+name' followed by a connector continues on the values of the matched traits as a name would (a default created "
                  "later, an equal object assigned later)")
+
+
+def items_semantics(ex):
+    """'items' also stands for a trait NAMED items - one that is added after the registration included - and what follows it in
+    the expression continues on that trait's value"""
+    from traits.api import HasTraits, Instance, Int
+    if "leaf" not in _META:
+        metadata_semantics(ex, "vtmeta")          # (creates the leaf fixture)
+    FxLeaf = _META["leaf"]
+    if "items-owner" not in _META:
+        _META["items-owner"] = type("FxItemsOwner", (HasTraits,), {"box": Instance(HasTraits)})
+    for expr, via_box in (("items.value", False), ("items:value", False), ("box:items:value", True)):
+        o = _META["items-owner"]()
+        target = o
+        if via_box:
+            target = _META["items-owner"]()
+            o.box = target
+        got = []
+        o.observe(lambda e: got.append((e.name, e.new)), expr)
+        target.add_trait("items", Instance(FxLeaf))
+        leaf = FxLeaf(value=1)
+        target.items = leaf
+        leaf.value = 7
+        ex.check(("value", 7) in got, "'items' followed by a connector continues on the value of a trait named items that was added later")
+        try:
+            o.observe(lambda e: None, expr, remove=True)
+            odd = True
+        except Exception:
+            odd = False             # (another handler: NotifierNotFound is right)
+        ex.check(not odd, "removal matches registrations by handler")
 
 
 def star_semantics(ex):
